@@ -56,7 +56,12 @@ C12_W64 = {0, 1, 8, 24, 28, 29, 32, 33, 56, 57, 63, 64}
 def keep_c12(c, quick):
     """C12 thins the lattice to the boundary points (sanitised runs are several times slower)"""
     m = c.get("meta", {})
-    if c["fn"] in ("page_v1_dict", "page_v2_dict", "make_definitions", "read_plain_t", "ba_roundtrip"):
+    if c["fn"] in ("page_v1_dict", "page_v2_dict"):
+        # the callers' allocation arithmetic under the sanitised build: the page readers on the boundary widths
+        return c["w"] in C12_W32 and (not quick or c["n"] == 9)
+    if c["fn"] == "page_delta":
+        return True
+    if c["fn"] in ("make_definitions", "read_plain_t", "ba_roundtrip"):
         return False
     if c["fn"] == "delta_unpack" and m.get("pattern") == "stale":
         return True
@@ -230,6 +235,8 @@ def generate(rng, quick, c12=False):
             _pg_finish(c)
         if c["fn"] == "page_v2_dict":
             _pg2_finish(c)
+        if c["fn"] == "page_delta":
+            c["inp"] = bytes(o).hex()
         if c["fn"] == "delta_unpack":
             # classify by the widths the spec encoder really chose (wrapping deltas can need more bits than intended)
             mw = _delta_max_width(bytes(o))
@@ -506,6 +513,8 @@ FNS = {
 
 def worker_case(c):
     d = {k: v for k, v in c.items() if k not in ("meta", "stream", "enc_len", "trail", "cut")}
+    if c["fn"] == "page_delta":
+        d.pop("vals", None)
     if c["fn"] in ("page_v1_dict", "page_v2_dict"):
         d.pop("inp", None)
     if c.get("cut"):
@@ -1632,3 +1641,44 @@ FNS["ba_roundtrip"] = dict(model=lambda c: ("uleb_enc", 0), tagged=False, views=
                            oracle=_rt_oracle, safe=lambda c: True, cls=lambda c: {"utf": c["utf"]},
                            trivial=lambda c: not c["items"])
 EXTRA_GENERATORS.append(gen_read_plain)
+
+
+# =============================================================================================
+# the Python callers of delta_binary_unpack (allocation by physical type, longval flag)
+# =============================================================================================
+
+def gen_page_delta(rng, quick):
+    cases = []
+    for longval in (0, 1):
+        bits = 64 if longval else 32
+        for version in (1, 2):
+            for n in ((5, 33, 40, 131) if quick else (2, 5, 31, 33, 34, 40, 130, 131, 300)):
+                if (n - 1) % 128 == 0:
+                    continue
+                wsel = [rng.choice([0, 1, 3, 8, 13, 24, 28]) for _ in range(40)]
+                vals, widths = _delta_values(rng, bits, n, 32, lambda m: wsel[m % 40], "random", 4)
+                adts = ["int64" if longval else "int32"] + (["int64"] if (version == 2 and not longval) else [])
+                for adt in adts:
+                    cases.append({"fn": "page_delta", "longval": longval, "version": version, "n": n, "adt": adt, "vals": [str(v) for v in vals],
+                                  "enc": ["delta_enc", bits, 128, 4, vals], "trail": False, "stream": "main",
+                                  "meta": {"max_width": max(widths) if widths else 0}})
+    return cases
+
+
+def _pd_oracle(c, r, so, guard):
+    if r[0] != "ok":
+        return [(r[0], "core.read_data_page%s on a DELTA_BINARY_PACKED page: %r" % ("_v2" if c["version"] == 2 else "", r[:3]))]
+    if not so:
+        return [("spec", "harness: the spec decoder rejects the page")]
+    want = [int(v) for v in so[0][0]]
+    if r[1] != want:
+        bad = [(i, a, b) for i, (a, b) in enumerate(zip(r[1], want)) if a != b][:4]
+        return [("values", "core.read_data_page%s (output dtype %s) differs from the spec decoding of the DELTA_BINARY_PACKED page: %d values for %d; "
+                 "(position, got, want) %r" % ("_v2" if c["version"] == 2 else "", r[2], len(r[1]), len(want), bad))]
+    return []
+
+
+FNS["page_delta"] = dict(model=lambda c: ("uleb_enc", 0), tagged=False, views=_info_views("none"),
+                         spec=lambda c: ("delta_dec", 64 if c["longval"] else 32, _inp(c)), oracle=_pd_oracle, safe=lambda c: True,
+                         cls=lambda c: {"longval": c["longval"], "version": c["version"], "adt": c["adt"]}, trivial=lambda c: False)
+EXTRA_GENERATORS.append(gen_page_delta)
